@@ -86,6 +86,80 @@ def sigkill_runs(ctx, count):
                 ctx.fail("kill-not-durable", f"after SIGKILL inside test {block}: newest *-interesting holds {got!r}, last accepted version was {want!r}", case)
 
 
+def odd_hooks(ctx):
+    """the hooks are whatever callable the condition module offers: a call recorder, a registry object (empty, hence falsy), a
+    functools.partial, a method — each runs exactly once, init before the first test and cleanup after the last, also when the
+    run is aborted"""
+    import functools
+    from lithium.reducer import Lithium
+    from lithium.strategies import Minimize
+    from lithium.testcases import TestcaseLine
+
+    class Recorder:
+        """callable and falsy while empty (it has a length)"""
+        def __init__(self, log, name):
+            self.log, self.name, self.items = log, name, []
+
+        def __call__(self, args):
+            self.log.append(self.name)
+
+        def __len__(self):
+            return len(self.items)
+
+    for kind in ("recorder", "partial", "function"):
+        for abort_at in (None, 0, 2):
+            for exc_cls in (RuntimeError, KeyboardInterrupt, SystemExit):
+                d = loaders.scratch() / "c02-hooks"
+                d.mkdir(exist_ok=True)
+                path = d / "tc.txt"
+                path.write_bytes(b"a\nb\nc\nd\n")
+                tc = TestcaseLine()
+                tc.load(path)
+                log = []
+
+                class Test:
+                    pass
+
+                t = Test()
+                if kind == "recorder":
+                    t.init, t.cleanup = Recorder(log, "init"), Recorder(log, "cleanup")
+                elif kind == "partial":
+                    t.init, t.cleanup = functools.partial(lambda n, a: log.append(n), "init"), functools.partial(lambda n, a: log.append(n), "cleanup")
+                else:
+                    t.init, t.cleanup = (lambda a: log.append("init")), (lambda a: log.append("cleanup"))
+                count = [0]
+
+                def interesting(args, prefix, count=count, abort_at=abort_at, exc_cls=exc_cls, log=log, path=path):
+                    k = count[0]
+                    count[0] += 1
+                    log.append("test")
+                    if abort_at is not None and k == abort_at:
+                        raise exc_cls("abort")
+                    return b"b" in path.read_bytes()
+
+                t.interesting = interesting
+                lith = Lithium()
+                lith.testcase, lith.condition_script, lith.condition_args, lith.strategy = tc, t, [], Minimize()
+                cwd = os.getcwd()
+                os.chdir(d)
+                try:
+                    try:
+                        lith.run()
+                    except BaseException:  # pylint: disable=broad-except
+                        pass
+                finally:
+                    os.chdir(cwd)
+                ctx.evaluations += 1
+                ctx.bump("odd-hooks")
+                case = dict(hooks=kind, abort_at=abort_at, abort_class=exc_cls.__name__)
+                if not log or log[0] != "init" or log.count("init") != 1 or log[-1] != "cleanup" or log.count("cleanup") != 1:
+                    ctx.fail("hooks", f"hooks given as {kind}: order of calls {log[:12]} (init once first, cleanup once last expected)", case)
+                if abort_at is not None:
+                    break_ = False
+                else:
+                    break
+
+
 def search(ctx):
     drv.d1(ctx, WHICH, 6000, NT, do_model=False)
     drv.d2_abort_everywhere(ctx, WHICH, NT, do_model=False)
@@ -101,6 +175,7 @@ def run(ctx) -> int:
     ctx.exhaustive.append("minimize-balanced + move: every verdict sequence of <= 6/8 tests on two bracketed files followed by an abort")
     drv.d2_touching_test(ctx, WHICH, 600 if ctx.thorough else 150)
     drv.d2_vanishing_file(ctx, WHICH, 300 if ctx.thorough else 60)
+    odd_hooks(ctx)
     if ctx.thorough:
         sigkill_runs(ctx, 18)
     return common.decide(ctx, proof, RULE, search=search,
